@@ -130,10 +130,16 @@ impl<'a, 'py> pyo3::FromPyObject<'a, 'py> for FieldValue {
                 }
             };
             if let Some(first) = first_non_null {
-                let expected = std::mem::discriminant(first);
+                // Python has a single `int` type: integers that need the unsigned representation
+                // are of the same type as integers that fit the signed one.
+                let type_discriminant = |value: &FieldValue| match value {
+                    FieldValue::Uint64(_) => std::mem::discriminant(&FieldValue::Int64(0)),
+                    _ => std::mem::discriminant(value),
+                };
+                let expected = type_discriminant(first);
                 for other in iter {
                     if !other.is_null() {
-                        let next_discriminant = std::mem::discriminant(other);
+                        let next_discriminant = type_discriminant(other);
                         if expected != next_discriminant {
                             let first_type = first.python_type_name();
                             let other_type = other.python_type_name();
